@@ -167,6 +167,9 @@ async fn he_ok_once() {
             other => panic!("expected Ok(7) at the poll after the success, got {other:?}"),
         }
     }
+    // nothing was put into the running set after the success (0 and 1 have completed, 2 was never started)
+    assert_eq!(set.tasks.len(), 0, "an attempt was added to the running set after the success");
+    assert_eq!(set.queue.len(), 0);
     drop(set);
     let ev = events(&log);
     assert_eq!(starts(&log), vec![0, 1], "an attempt was started after (or despite) the success: {ev:?}");
@@ -332,4 +335,36 @@ async fn he_join_next() {
     assert!(matches!(set.join_next().await, Eyeball::Exhausted));
     assert_eq!(set.len(), 0);
     assert!(set.is_empty());
+}
+
+/// he.no_panic [C10]: draining with a stagger delay configured and a candidate that never completes just keeps
+/// waiting (the `panic!("unexpected timeout")` arm is unreachable: the drain loop waits without the stagger timeout)
+#[tokio::test]
+async fn he_drain_no_panic() {
+    for ic in [None, Some(1)] {
+        let Rig { mut set, log, tx: _tx } = rig(2, Some(Duration::ZERO), None, ic);
+        let mut fut: Pin<Box<dyn Future<Output = _> + '_>> = Box::pin(set.finish());
+        for _ in 0..30 {
+            assert!(step(&mut fut).await.is_pending());
+            tokio::time::sleep(Duration::from_millis(1)).await;
+        }
+        assert_eq!(starts(&log), vec![0, 1]);
+    }
+}
+
+/// he.addrs.front [C11]: `SocketAddrs::pop` hands the addresses out front to back (the order in which
+/// `TcpConnecting::connect` creates and pushes the attempts)
+#[test]
+fn he_addrs_front() {
+    use crate::client::conn::dns::SocketAddrs;
+    let list: Vec<std::net::SocketAddr> =
+        vec!["10.0.0.1:80".parse().unwrap(), "[::1]:80".parse().unwrap(), "10.0.0.2:80".parse().unwrap()];
+    let mut addrs = SocketAddrs::from_iter(list.clone());
+    assert_eq!(addrs.len(), 3);
+    let mut got = Vec::new();
+    while let Some(a) = addrs.pop() {
+        got.push(a);
+    }
+    assert_eq!(got, list);
+    assert!(addrs.is_empty());
 }
